@@ -165,13 +165,12 @@ Proof. exact conform_literal_zero_refuted. Qed.
 Print Assumptions C01_d4_conform_literal_zero_refuted.
 
 (* d4_conform is sufficient, not necessary: duplicate unlabelled edges into one f node (the proof
-   wants duplicate-free child lists before balancing), an or node that is deterministic without
-   being a decision node, an unreachable cycle - all rejected by d4_conform, all load to vectors
-   that pass check_wf *)
+   wants duplicate-free child lists before balancing) and an or node that is deterministic
+   without being a decision node are rejected by d4_conform, and load to vectors that pass
+   check_wf (both are hand cases of run ld4) *)
 Theorem C01_d4_conform_not_necessary :
   (d4_conform twice_false_file 1 = false /\ exists C, load_d4 twice_false_file 1 = Some (C, 1%nat) /\ check_wf C 1 = true) /\
-  (d4_conform nondecision_file 1 = false /\ exists C, load_d4 nondecision_file 1 = Some (C, 1%nat) /\ check_wf C 1 = true) /\
-  (d4_conform garbage_cycle_file 1 = false /\ exists C, load_d4 garbage_cycle_file 1 = Some (C, 1%nat) /\ check_wf C 1 = true).
+  (d4_conform nondecision_file 1 = false /\ exists C, load_d4 nondecision_file 1 = Some (C, 1%nat) /\ check_wf C 1 = true).
 Proof. exact conform_not_necessary. Qed.
 Print Assumptions C01_d4_conform_not_necessary.
 
